@@ -17,27 +17,27 @@ import (
 )
 
 type FuncReport struct {
-	Fn           string
-	Pkg          string
-	Mode         string
-	Obligations  []*Obligation
-	Covers       []*Obligation // return-path reachability (vacuity guard)
-	Unsupported  []string
-	Uncontracted []string
-	Inlined      []string
+	Fn            string
+	Pkg           string
+	Mode          string
+	Obligations   []*Obligation
+	Covers        []*Obligation // return-path reachability (vacuity guard)
+	Unsupported   []string
+	Uncontracted  []string
+	Inlined       []string
 	ContractsUsed []string
-	Aborted      string
-	Paths        int
-	Returns      int
-	ParamSyms    map[string]string
-	ParamOrder   []string
-	ResultSyms   []string
-	fnObj        *ssa.Function
-	Skipped      int
-	NObl         int
-	IsTrusted    bool
-	OnlyPat      string
-	fc           *FuncContract
+	Aborted       string
+	Paths         int
+	Returns       int
+	ParamSyms     map[string]string
+	ParamOrder    []string
+	ResultSyms    []string
+	fnObj         *ssa.Function
+	Skipped       int
+	NObl          int
+	IsTrusted     bool
+	OnlyPat       string
+	fc            *FuncContract
 }
 
 func (e *Engine) newExec(fn *ssa.Function, fc *FuncContract) *Exec {
@@ -176,7 +176,7 @@ func (e *Engine) VerifyFunction(fn *ssa.Function, fc *FuncContract) *FuncReport 
 		}
 		if fc.HasAssign {
 			x.checkFrames = true
-			for _, a := range fc.Assigns {
+			for _, a := range append(append([]*Clause{}, fc.Assigns...), fc.BodyAssigns...) {
 				locs, err := env.assignLocs(a.E)
 				if err != nil {
 					rep.Aborted = fmt.Sprintf("assigns: %v", err)
